@@ -369,15 +369,15 @@ var ErrHorizon = errors.New("link: operation horizon reached")
 // Script runs a single party against a pre-loaded remote byte string: the remote "writes" all of
 // input, then closes. Output of the party is collected. No goroutines, no baton.
 type Script struct {
-	In      []byte
-	rpos    int
-	Out     []byte
-	Closes  int
-	closed  bool
-	Seg     Seg
-	Reads   int
-	MaxOut  int
-	Reset   bool
+	In     []byte
+	rpos   int
+	Out    []byte
+	Closes int
+	closed bool
+	Seg    Seg
+	Reads  int
+	MaxOut int
+	Reset  bool
 }
 
 func (s *Script) Read(p []byte) (int, error) {
